@@ -12,11 +12,14 @@ UNIT = dict(
         "DynamicTimeout::get_timeout@TimeoutFn": dict(file="config"),
         "TimeLimiter::clone@Clone": dict(),
         "TimeLimiter::poll_ready@Service": dict(rules=[("R10p", "TimeLimiterError::Inner")]),
-        "TimeLimiter::call@Service": dict(rules=[
+        "TimeLimiter::call@Service": dict(safety_tags=["C06"], rules=[
+            # tokio's own clock type and absolute-deadline timers (optional: the pinned tree uses timeout(d, ..) and sleep(d))
+            ("sub", "R9-paths", r"tokio::time::Instant::now\(\)", "Instant::now()", -1),
+            ("addarg", ["timeout_at", "sleep_until"], "&*clk", -1),
             ("R17-spawn", 1),
             ("R17-select", 1),
             ("sub", "R9-paths", r"tokio::sync::oneshot::channel\(\)", "oneshot_channel(Tracked(tr))", 1),
-            ("sub", "R9-paths", r"tokio::time::sleep", "sleep", 1),
+            ("sub", "R9-paths", r"tokio::time::sleep\b", "sleep", -1),
             ("sub", "R6-send", r"tx\.send\(result\)", "tx.send(result, Tracked(tr))", 1),
             ("R4",), ("R3",), ("R5",),
             ("sub", "R16-local-type", r"let result: Option<Result<S::Response, S::Error>> =", "let result: Option<Result<Res, E>> =", 1),
